@@ -5,7 +5,7 @@ fn main() {
     let mut ctx = Ctx::init("C12");
     ctx.rule(
         "Cases are operation histories over three Bitset<N> registers (set, remove, flip, clear, new/default, from_u64, complement, \
-         &,|,^ in reference form, &=,|=,^=, clone) for N in {1,2,3,4,7,10,16}, with index selectors biased to word boundaries \
+         &,|,^ in reference form, &=,|=,^=, clone) for N in {1,2,3,4,7,10,16} and, with fewer and shorter histories, N in {130, 1030} (8320 and 65920 bits), with index selectors biased to word boundaries \
          (0, 63, 64, 65, 127, 128, 64N-1), interpreted against BTreeSet<usize> models. After every op: iter_bits (strictly ascending, \
          equal to the set), count, test on boundary and touched indices, == between all register pairs <=> set equality; Display and \
          Debug rendering (index 0 first) every 8 ops and at the end. Non-trivial = N>1 and an element at a word-boundary index \
@@ -15,6 +15,10 @@ fn main() {
     ctx.begin();
     for cap in 0..7u8 {
         ctx.prop(&format!("histories-N{}", CAPS[cap as usize]), "bitset-history", ctx.n(3_000, 60_000), case(Some(cap), ctx.n(60, 200) as usize), run_case);
+    }
+    // large capacities (beyond 8192 and 65536 bits): fewer, shorter histories
+    for cap in 7..9u8 {
+        ctx.prop(&format!("histories-N{}", CAPS[cap as usize]), "bitset-history", ctx.n(150, 4_000), case(Some(cap), 24), run_case);
     }
     ctx.finish();
 }
